@@ -56,6 +56,7 @@ func dialTCPConn(ctx context.Context, logger protocol.Logger, uri *url.URL, hand
 		conn:          conn,
 		readBuf:       ringbuffer.New(o.ReadBufferSize),
 		writeCh:       make(chan []byte, o.WriteQueueSize),
+		packetCh:      make(chan *protocol.Packet, o.ReadQueueSize),
 		buf:           make([]byte, 0xfffff), // alloc 1m length for reading
 		closeCallback: newCloseCallback(),
 	}
@@ -142,8 +143,6 @@ func (conn *tcpConn) write(data []byte) error {
 func (conn *tcpConn) OnPacket(fn func(*protocol.Packet, error)) {
 	// OnPacket can only invoke once
 	conn.onPacketOnce.Do(func() {
-		conn.packetCh = make(chan *protocol.Packet, conn.dopts.ReadQueueSize)
-
 		go func() {
 			// packetCh and writeCh are never closed: the reader and callers of
 			// Write may still be sending on them when the conn is closed (a
